@@ -142,6 +142,23 @@ func init() {
 		n250, n255 := strings.Repeat("n", 250), strings.Repeat("q", 255)
 		return fsmodel.Tree{f("a", 1, 5, t1), f(n250, 7, 11, t1+9), d(n255, t1+2), f(n255+"/"+strings.Repeat("r", 255), 8, 10, t1+9), f(n255+"/"+strings.Repeat("s", 241), 9, 3, t1+9), d("z", t1)}
 	}
+	// what a killed receive leaves behind: temporary entries with the first names a restarted process would pick, next
+	// to an entry that sorts before them and gets replaced by something shorter
+	extraTrees["c7orphan"] = func() fsmodel.Tree {
+		return fsmodel.Tree{f(".env", 61, 5, t1+50), f("a", 62, 7, t1+51), d("sub", t1+52), f("sub/.cfg", 63, 4, t1+53)}
+	}
+	extraTrees["c7orphan-old"] = func() fsmodel.Tree {
+		t := fsmodel.Tree{f(".env", 71, 9, t1+1), f("a", 72, 8, t1+2), d("sub", t1+52), f("sub/.cfg", 73, 6, t1+3)}
+		for i := 0; i <= 6; i++ {
+			t = append(t, f(fmt.Sprintf(".tmp.%09d", i), 80+i, 100, t1), f(fmt.Sprintf("sub/.tmp.%09d", i), 90+i, 100, t1))
+		}
+		return t
+	}
+	// names that begin with two dots (a ConfigMap volume: ..data, ..2024_05_01)
+	extraTrees["c7dots"] = func() fsmodel.Tree {
+		return fsmodel.Tree{d("..2024_05_01", t1), f("..2024_05_01/token", 64, 9, t1+1), {Path: "..data", Kind: fsmodel.Symlink, Perm: 0777, Mtime: t1 + 2, Link: "..2024_05_01"},
+			f("..hidden", 65, 3, t1+3), {Path: "token", Kind: fsmodel.Symlink, Perm: 0777, Mtime: t1 + 4, Link: "..data/token"}, d("z", t1+5), f("z/..x", 66, 2, t1+6)}
+	}
 	// more entries than any window a sender could keep of what it announced (512 = 4 x 128)
 	extraTrees["fan700"] = func() fsmodel.Tree {
 		var t fsmodel.Tree
